@@ -62,7 +62,8 @@ RectPix(r) == (r[1]..(r[3]-1)) \X (r[2]..(r[4]-1))
 RectLess(a, b) == \E i \in 1..4 : a[i] < b[i] /\ \A j \in 1..(i-1) : a[j] = b[j]
 UnionPix(rs) == UNION { RectPix(rs[i]) : i \in 1..Len(rs) }
 Isl(g) == IF "isl" \in DOMAIN g THEN g.isl ELSE << >>
-RegionPix(g) == (UnionPix(g.add) \ UnionPix(g.sub)) \cup UnionPix(Isl(g))
+SubB(g) == IF "sub2" \in DOMAIN g THEN g.sub2 ELSE << >>
+RegionPix(g) == ((UnionPix(g.add) \ UnionPix(g.sub)) \cup UnionPix(Isl(g))) \ UnionPix(SubB(g))
 RectContour(r) == XS(0)!RectCCW(r[1], r[2], r[3], r[4])
 Contours(rs) == [i \in 1..Len(rs) |-> RectContour(rs[i])]
 Regions(fam) ==
@@ -85,6 +86,17 @@ Regions(fam) ==
                           i \in { r \in RectsOn(-2, 2) : r[3] - r[1] <= 2 /\ r[4] - r[2] <= 2 } } \cap
                        { g \in [add : { << <<-3,-3,3,3>> >> }, sub : { <<r>> : r \in RectsOn(-2, 2) }, isl : { <<r>> : r \in RectsOn(-2, 2) }] :
                            /\ RectPix(g.isl[1]) \subseteq RectPix(g.sub[1]) /\ RectPix(g.isl[1]) # RectPix(g.sub[1]) }
+    \* two levels of nesting (a hole inside an island inside a hole) and two holed blocks side by side / touching
+    [] fam = "nest2" ->
+         ({ [add |-> << <<-4,-4,3,3>> >>, sub |-> << <<-3,-3,2,2>> >>, isl |-> <<i>>, sub2 |-> <<h>>] :
+             i \in { r \in RectsOn(-3, 2) : r[3] - r[1] >= 3 /\ r[4] - r[2] >= 3 },
+             h \in { r \in RectsOn(-2, 1) : r[3] - r[1] = 1 /\ r[4] - r[2] <= 2 } } \cap
+         { g \in [add : { << <<-4,-4,3,3>> >> }, sub : { << <<-3,-3,2,2>> >> }, isl : { <<r>> : r \in RectsOn(-3, 2) },
+                   sub2 : { <<r>> : r \in RectsOn(-2, 1) }] :
+             LET i == g.isl[1]  h == g.sub2[1] IN i[1] < h[1] /\ h[3] < i[3] /\ i[2] < h[2] /\ h[4] < i[4] })
+         \cup
+         { [add |-> << <<-4,-4,-1,-1>>, <<x, y, x + 3, y + 3>> >>, sub |-> << <<-3,-3,-2,-2>>, <<x + 1, y + 1, x + 2, y + 2>> >>] :
+             x \in {-1, 0}, y \in {-4, -1, 0} }
     [] OTHER -> {}
 RegionFams == {"r1", "r2", "rh", "r3", "r3all", "r2big"}
 
@@ -296,7 +308,7 @@ Init ==
   /\ \E fam \in Families :
        \/ /\ fam \in RegionFams
           /\ \E g \in Regions(fam), k \in {"off", "dec", "hullx"} : cs = [kind |-> k, in |-> g]
-       \/ /\ fam = "nest" /\ \E g \in Regions("nest") : cs = [kind |-> "dec", in |-> g]
+       \/ /\ fam \in {"nest", "nest2"} /\ \E g \in Regions(fam) : cs = [kind |-> "dec", in |-> g]
        \/ /\ fam = "sharp" /\ \E c \in SharpSet : cs = [kind |-> "sharp", in |-> c]
        \/ /\ fam \in HullFams /\ \E P \in HullCases(fam) : cs = [kind |-> "hull", in |-> P]
        \/ /\ fam \in SimpFams /\ \E x \in SimpCases(fam) : cs = [kind |-> "simp", in |-> x]
@@ -315,7 +327,7 @@ VarsOut(vs) == [i \in 1..Len(vs) |-> [jt |-> vs[i].jt, ml10 |-> vs[i].ml10, seg 
 Emitted(x) ==
   CASE x.kind = "off"   -> [kind |-> "off", K |-> K, add |-> x.g.add, sub |-> x.g.sub, A |-> Enc(x.A), vars |-> VarsOut(x.vars)]
     [] x.kind = "sharp" -> [kind |-> "sharp", K |-> K, c |-> x.c, A |-> Enc(x.A), vars |-> VarsOut(x.vars)]
-    [] x.kind = "dec"   -> [kind |-> "dec", K |-> K, add |-> x.g.add, sub |-> x.g.sub, isl |-> Isl(x.g), A |-> Enc(x.A),
+    [] x.kind = "dec"   -> [kind |-> "dec", K |-> K, add |-> x.g.add, sub |-> x.g.sub, isl |-> Isl(x.g), sub2 |-> SubB(x.g), A |-> Enc(x.A),
                             comps |-> { Enc(c) : c \in x.comps }, n |-> Cardinality(x.comps)]
     [] x.kind = "hull"  -> [kind |-> "hull", pts |-> x.pts, hull |-> x.hull, area2 |-> x.area2]
     [] x.kind = "hullx" -> [kind |-> "hullx", rects |-> x.rects, pts |-> x.pts, hull |-> x.hull, area2 |-> x.area2]
@@ -330,8 +342,8 @@ IsK(k) == done = 2 /\ cs.kind = k
 RegionCase == done = 2 /\ cs.kind \in {"off", "dec"}
 (* the pixel set of a region is what Xsec.tla's winding oracle says about its rectangles *)
 RegionIsFill == RegionCase =>
-  /\ cs.A = (XS(0)!Fill("Positive", Contours(cs.g.add)) \ XS(0)!Fill("Positive", Contours(cs.g.sub)))
-              \cup XS(0)!Fill("Positive", Contours(Isl(cs.g)))
+  /\ cs.A = ((XS(0)!Fill("Positive", Contours(cs.g.add)) \ XS(0)!Fill("Positive", Contours(cs.g.sub)))
+              \cup XS(0)!Fill("Positive", Contours(Isl(cs.g)))) \ XS(0)!Fill("Positive", Contours(SubB(cs.g)))
   /\ cs.kind = "off" => \A s \in cs.A : << s[1] - 3, s[2] - 3 >> \in Pix(0) /\ << s[1] + 3, s[2] + 3 >> \in Pix(0)  \* room for every offset
 (* no pixel is demanded both inside and outside; demands are monotone in delta *)
 DemandsConsistent == (IsK("off") \/ IsK("sharp")) =>
